@@ -160,13 +160,37 @@ func nilTest(l Lit) (x ssa.Value, isNil bool, ok bool) {
 // KnownNil tells whether x (after stripping conversions) is known nil / non-nil at block b.
 // It returns (isNil, known).
 func (f *Facts) KnownNil(b *ssa.BasicBlock, x ssa.Value) (bool, bool) {
-	x = strip(x)
+	x = throughCell(strip(x))
 	for l := range f.in[b] {
-		if y, isNil, ok := nilTest(l); ok && strip(y) == x {
+		if y, isNil, ok := nilTest(l); ok && throughCell(strip(y)) == x {
 			return isNil, true
 		}
 	}
 	return false, false
+}
+
+// throughCell resolves a load of a local variable to the value of its unique reaching store.
+func throughCell(v ssa.Value) ssa.Value {
+	for i := 0; i < 4; i++ {
+		u, ok := v.(*ssa.UnOp)
+		if !ok || u.Op != token.MUL {
+			return v
+		}
+		a, ok := u.X.(*ssa.Alloc)
+		if !ok {
+			return v
+		}
+		stores, ok2 := cellStores(a)
+		if !ok2 || len(stores) == 0 {
+			return v
+		}
+		rs := cellReaching(stores, u)
+		if len(rs) != 1 || rs[0].Parent() != u.Parent() || !InstrDominates(rs[0], u) {
+			return v
+		}
+		v = strip(rs[0].Val)
+	}
+	return v
 }
 
 // boolTest: is the boolean value x known at b?
